@@ -36,7 +36,15 @@ pub const ALL_STATES: [RxState; 9] = [
     RxState::AfterBc,
 ];
 
-pub const SLOTS: usize = 2;
+/// slot count of the receivers built by rx_in_state / run_faulty; drivers vary it (2 or 3) per scenario so that
+/// slot arithmetic is exercised for a count that is not a power of two
+static CUR_SLOTS: std::sync::atomic::AtomicUsize = std::sync::atomic::AtomicUsize::new(2);
+pub fn slots() -> usize {
+    CUR_SLOTS.load(std::sync::atomic::Ordering::Relaxed)
+}
+pub fn set_slots(n: usize) {
+    CUR_SLOTS.store(n, std::sync::atomic::Ordering::Relaxed)
+}
 
 /// Build a receiver in the given state through the public API.
 pub fn rx_in_state(out: &mut Out, drv: &str, what: &str, st: RxState, mgr: TableMgr) -> Rx<DefaultCrc> {
@@ -45,7 +53,7 @@ pub fn rx_in_state(out: &mut Out, drv: &str, what: &str, st: RxState, mgr: Table
         RxState::AllInCtx => 2,
         _ => 2,
     };
-    let mut rx = mk_rx(out, drv, what, SLOTS, PDU_SIZE, nbuf, mgr, false);
+    let mut rx = mk_rx(out, drv, what, slots(), PDU_SIZE, nbuf, mgr, false);
     let pdu: Vec<u8> = (0..30).collect();
     let first = |id: u8| train(&pdu, &[1, 2, 3, 4, 5, 6], false, 0x0800, id, &[10])[0].ser();
     match st {
@@ -54,7 +62,7 @@ pub fn rx_in_state(out: &mut Out, drv: &str, what: &str, st: RxState, mgr: Table
             feed(out, &mut rx, &first(4), vec![]);
         }
         RxState::OpenAlias => {
-            feed(out, &mut rx, &first(4 + SLOTS as u8), vec![]);
+            feed(out, &mut rx, &first(4 + slots() as u8), vec![]);
         }
         RxState::OpenOther => {
             feed(out, &mut rx, &first(5), vec![]);
@@ -165,6 +173,7 @@ pub fn fuzzrx(out: &mut Out, seed: u64, thorough: bool) {
                     continue;
                 }
                 k += 1;
+                set_slots(2 + (k / 7) % 2);
                 let st = states2[k % states2.len()];
                 let mut rx = rx_in_state(out, "fuzzrx", "hdr_trunc", st, std_mgr());
                 let h: u16 = (nib << 12) | (*gl as u16);
@@ -196,6 +205,7 @@ pub fn fuzzrx(out: &mut Out, seed: u64, thorough: bool) {
     let nhist = if thorough { 1500 } else { 250 };
     for i in 0..nhist {
         let st = ALL_STATES[i % ALL_STATES.len()];
+        set_slots(2 + (i / 9) % 2);
         let mut rx = rx_in_state(out, "fuzzrx", "random", st, std_mgr());
         let steps = rng.range(1, 10);
         for _ in 0..steps {
@@ -205,7 +215,7 @@ pub fn fuzzrx(out: &mut Out, seed: u64, thorough: bool) {
                 rx.ev_peek(out, &bytes, false);
             }
         }
-        let id = *rng.pick(&[4u8, 4 + SLOTS as u8, 5, 255, 0]);
+        let id = *rng.pick(&[4u8, 4 + slots() as u8, 5, 255, 0]);
         probe(out, &mut rx, &mut rng, PDU_SIZE, id, PDU_SIZE + 30);
         rx.ev_drain(out);
     }
@@ -221,7 +231,7 @@ pub fn random_packet(rng: &mut Rng) -> Vec<u8> {
         2 => vec![],
         _ => vec![0, 0, 0, 0, 0, 0],
     };
-    let id = *rng.pick(&[4u8, 4 + SLOTS as u8, 5, 6, 255]);
+    let id = *rng.pick(&[4u8, 4 + slots() as u8, 5, 6, 255]);
     let reuse = rng.chance(1, 6);
     let ptype = *rng.pick(&[0x0800u16, 0x0600, 0xFFFF, 0x0081, 0x0042, 0x0043, 0x0099, 0x0100, 0x0211, 0x0544]);
     let mut v = match rng.below(8) {
@@ -353,6 +363,16 @@ fn emit_family(out: &mut Out, rx: &mut Rx<DefaultCrc>, b0: u8, from: (u8, u8), t
 }
 
 // ------------------------------------------------------------------ faults
+/// like valid_train, but the intermediate fragments carry the whole PDU: the end packet holds only the CRC
+fn valid_train_crc_only_end(rng: &mut Rng, n: usize, id: u8) -> (Vec<u8>, Vec<P>) {
+    let pdu = rng.bytes(n);
+    let label: Vec<u8> = if rng.chance(1, 2) { vec![1, 2, 3, 4, 5, 6] } else { vec![] };
+    let a = rng.range(1, n / 3);
+    let b = rng.range(1, n / 3);
+    let t = train(&pdu, &label, false, 0x0800, id, &[a, b, n - a - b]);
+    (pdu, t)
+}
+
 fn valid_train(rng: &mut Rng, n: usize, id: u8, reuse: bool) -> (Vec<u8>, Vec<P>) {
     let pdu = rng.bytes(n);
     let label: Vec<u8> = match rng.below(3) {
@@ -374,7 +394,8 @@ fn valid_train(rng: &mut Rng, n: usize, id: u8, reuse: bool) -> (Vec<u8>, Vec<P>
 }
 
 fn run_faulty(out: &mut Out, rng: &mut Rng, what: &str, prelude: &[Vec<u8>], pkts: &[Vec<u8>]) {
-    let mut rx = mk_rx(out, "faults", what, SLOTS, PDU_SIZE, 2, std_mgr(), false);
+    set_slots(2 + out.scn % 2);
+    let mut rx = mk_rx(out, "faults", what, slots(), PDU_SIZE, 2, std_mgr(), false);
     for p in prelude {
         feed(out, &mut rx, p, vec![]);
     }
@@ -386,12 +407,13 @@ fn run_faulty(out: &mut Out, rng: &mut Rng, what: &str, prelude: &[Vec<u8>], pkt
 }
 
 pub fn faults(out: &mut Out, seed: u64, thorough: bool) {
+    set_slots(2);
     let mut rng = Rng::new(seed ^ 0xFA17);
     let ntrains = if thorough { 12 } else { 3 };
     for ti in 0..ntrains {
         let n = if thorough { rng.range(4, 40) } else { rng.range(6, 16) };
         let reuse = ti % 3 == 2;
-        let (_pdu, t) = valid_train(&mut rng, n, 4, reuse);
+        let (_pdu, t) = if ti % 3 == 1 { valid_train_crc_only_end(&mut rng, n.max(9), 4) } else { valid_train(&mut rng, n, 4, reuse) };
         let pk: Vec<Vec<u8>> = t.iter().map(|p| p.ser()).collect();
         // a re-use first fragment needs a remembered label
         let prelude: Vec<Vec<u8>> = if t[0].lt == 3 { vec![complete(&[1, 2], &[1, 2, 3, 4, 5, 6], false, 0x0800).ser()] } else { vec![] };
@@ -455,7 +477,7 @@ pub fn faults(out: &mut Out, seed: u64, thorough: bool) {
         }
         // field replacement: frag id, total length, CRC
         for i in 0..t.len() {
-            for fid in [0u8, 5, 4 + SLOTS as u8, 255] {
+            for fid in [0u8, 5, 4 + slots() as u8, 255] {
                 let mut tt = t.clone();
                 tt[i].fragid = fid;
                 run_faulty(out, &mut rng, "set_fragid", &prelude, &tt.iter().map(|p| p.ser()).collect::<Vec<_>>());
@@ -693,7 +715,7 @@ pub fn interleave(out: &mut Out, seed: u64, thorough: bool) {
             let mut pos = vec![0usize; counts.len()];
             // stray packets: intermediate / end of ids that alias an occupied slot or are unknown, complete packets
             let stray_at = rng.below(m.len() + 1);
-            let stray_kind = mi % 5;
+            let stray_kind = mi % 9;
             for (k, ti) in m.iter().enumerate() {
                 if k == stray_at {
                     let alias = ids[rng.below(ids.len())].wrapping_add(slots as u8);
@@ -702,11 +724,33 @@ pub fn interleave(out: &mut Out, seed: u64, thorough: bool) {
                         1 => P { kind: 1, lt: 3, fragid: alias, tl: 0, ptype: 0, label: vec![], chain: vec![], payload: vec![1, 2, 3], crc: 77, gse_len: None }.ser(),
                         2 => complete(&[5, 6, 7], &[3, 3, 3], false, 0x0800).ser(),
                         3 => P { kind: 0, lt: 3, fragid: 250, tl: 0, ptype: 0, label: vec![], chain: vec![], payload: vec![9], crc: 0, gse_len: None }.ser(),
+                        // first fragments of an aliasing id that must be rejected without claiming the slot:
+                        // total length not larger than the payload, unknown mandatory extension, zero label, unresolvable re-use
+                        5 => P { kind: 2, lt: 1, fragid: alias, tl: 3, ptype: 0x0800, label: vec![1, 2, 3], chain: vec![], payload: vec![1, 2, 3, 4, 5], crc: 0, gse_len: None }.ser(),
+                        6 => P { kind: 2, lt: 1, fragid: alias, tl: 40, ptype: 0x0099, label: vec![1, 2, 3], chain: vec![0x08, 0x00], payload: vec![1, 2, 3], crc: 0, gse_len: None }.ser(),
+                        7 => P { kind: 2, lt: 0, fragid: alias, tl: 40, ptype: 0x0800, label: vec![0; 6], chain: vec![], payload: vec![1, 2, 3], crc: 0, gse_len: None }.ser(),
+                        8 => {
+                            rx.ev_reset(out);
+                            P { kind: 2, lt: 3, fragid: alias, tl: 40, ptype: 0x0800, label: vec![], chain: vec![], payload: vec![1, 2, 3], crc: 0, gse_len: None }.ser()
+                        }
                         _ => vec![],
                     };
                     if !s.is_empty() {
                         rx.note_id(alias);
                         feed(out, &mut rx, &s, vec![]);
+                    }
+                }
+                if stray_kind >= 5 {
+                    // rejected first fragments of the id aliasing *each* PDU's slot, before every packet
+                    for (ii, idv) in ids.iter().enumerate() {
+                        let al = idv.wrapping_add(slots as u8);
+                        let s = match (stray_kind + ii + k) % 3 {
+                            0 => P { kind: 2, lt: 1, fragid: al, tl: 3, ptype: 0x0800, label: vec![1, 2, 3], chain: vec![], payload: vec![1, 2, 3, 4, 5], crc: 0, gse_len: None },
+                            1 => P { kind: 2, lt: 1, fragid: al, tl: 40, ptype: 0x0099, label: vec![1, 2, 3], chain: vec![0x08, 0x00], payload: vec![1, 2, 3], crc: 0, gse_len: None },
+                            _ => P { kind: 2, lt: 0, fragid: al, tl: 40, ptype: 0x0800, label: vec![0; 6], chain: vec![], payload: vec![1, 2, 3], crc: 0, gse_len: None },
+                        };
+                        rx.note_id(al);
+                        feed(out, &mut rx, &s.ser(), vec![]);
                     }
                 }
                 let pkt = &made[*ti].pkts[pos[*ti]];
@@ -762,9 +806,14 @@ pub fn frames(out: &mut Out, seed: u64, thorough: bool) {
         let mut walker: Rx<DefaultCrc> = Rx::new(2, PDU_SIZE, DefaultCrc {}, mgr.clone());
         let mut twin: Rx<DefaultCrc> = Rx::new(2, PDU_SIZE, DefaultCrc {}, mgr.clone());
         let mut sink = Out::sink();
-        for i in 0..2 {
+        let nbuf = if fi % 4 == 3 { 1 } else { 2 };
+        for i in 0..nbuf {
             walker.ev_provision(out, PDU_SIZE + i);
             twin.ev_provision(&mut sink, PDU_SIZE + i);
+        }
+        if fi % 3 == 0 {
+            let c = Cfg::EnableMax(1 + (fi % 2) as u8);
+            ev_cfg(out, &mut enc, c);
         }
         // several frames per session so that fragments continue across frames
         let mut open: Option<(Pdu, dvb_gse_rust::gse_encap::ContextFrag)> = None;
@@ -803,7 +852,12 @@ pub fn frames(out: &mut Out, seed: u64, thorough: bool) {
                 }
                 // occasionally a packet the receiver must reject, consuming its own length
                 if rng.chance(1, 5) {
-                    let bad: Vec<u8> = match rng.below(4) {
+                    let bad: Vec<u8> = match rng.below(6) {
+                        4 | 5 => {
+                            // a valid first fragment of another PDU: with every buffer attached to a reassembly it is
+                            // rejected for lack of storage and must consume exactly its own length
+                            train(&[9, 8, 7, 6, 5, 4, 3, 2], &[5, 5, 5], false, 0x0800, 97, &[4])[0].ser()
+                        }
                         0 => P { kind: 0, lt: 3, fragid: 99, tl: 0, ptype: 0, label: vec![], chain: vec![], payload: vec![1, 2], crc: 0, gse_len: None }.ser(),
                         1 => {
                             let mut p = complete(&[1, 2, 3], &[4, 4, 4], false, 0x0099);
